@@ -136,6 +136,8 @@ def _worker(wid, spaces, counter, nblocks_total, order, deadline, beacon_path, c
                         R.samples.append({"space": sp.name, "block": crepr(blk)[:200], "case": crepr(case)[:400]})
             if case is not None and len(R.samples) < 40 and k > 1:
                 R.samples.append({"space": sp.name, "block": crepr(blk)[:200], "case": crepr(case)[:400]})
+            if k == 0:
+                R.extra["empty_block:" + sp.name] = R.extra.get("empty_block:" + sp.name, 0) + 1     # vacuity indicator, shown in the evidence counters
             if mon_err is not None and case is not None and _lib.S.v_check_guards():
                 R.fail("memory-monitor", "after this block (last case shown): %s" % _lib.alloc_msg())
                 _lib.S.v_reset_errors()
